@@ -34,8 +34,10 @@ template <class T,int index>
 static FixedArray<T>
 Color3Array_get(FixedArray<IMATH_NAMESPACE::Color3<T> > &ca)
 {    
-    return FixedArray<T>(&(ca.unchecked_index(0)[index]),
-                         ca.len(),3*ca.stride(),ca.handle(),ca.writable());
+    FixedArray<T> r(&(ca.unchecked_direct_index(0)[index]),
+                    ca.len(),3*ca.stride(),ca.handle(),ca.writable());
+    r.shareMaskOf (ca);
+    return r;
 }
 
 // Currently we are only exposing the RGBA components.
